@@ -172,6 +172,8 @@ class AXILSlave(Agent):
         self.garbage = idle_garbage
         self.gpos = 0
         self.cur_b = self.cur_r = None
+        self.is_silent = False
+        self.silent_mid_request = False
 
     def _err(self, addr):
         return self.err_range is not None and self.err_range[0] <= addr < self.err_range[1]
@@ -183,7 +185,6 @@ class AXILSlave(Agent):
 
     def step(self, v, t, w):
         b = self.bus
-        silent = self.silent_from is not None and t >= self.silent_from
         # ---- completed handshakes
         if v[b.aw.valid] and v[b.aw.ready]:
             self.awq.append(v[b.aw.addr])
@@ -221,6 +222,13 @@ class AXILSlave(Agent):
                     if (s >> i) & 1:
                         old = (old & ~(0xff << (8 * i))) | (d & (0xff << (8 * i)))
                 self.memory[a >> 2] = old
+        if self.silent_from is not None and t >= self.silent_from and not self.is_silent:
+            # die only with nothing accepted-but-unanswered (that case is a listed known finding, replayed separately)
+            if self.silent_mid_request or not (self.awq or self.wq or self.wr_pending or self.rd_pending):
+                self.is_silent = True
+                self.bench.fault("silent_slave")
+                self.bench.event(self.name, "silent", t)
+        silent = self.is_silent
         # ---- responses
         if not silent:
             if not self.b_on and self.wr_pending and self.wr_pending[0][0] <= t:
